@@ -81,7 +81,7 @@ Section ExtObj.
             end
           end) = true ->
     tid' = norm_expnodeid tv ->
-    (forall bt bv, body = Some bv -> extobj_body_ty reg m tv = Some bt -> rwf reg bt bv = true ->
+    (forall bt bv, body = Some bv -> (m =? 0) = false -> extobj_body_ty reg m tv = Some bt -> rwf reg bt bv = true ->
        RTb 0 k (encode reg bt bv) (rec bt) (rnorm reg bt bv)) ->
     RTb 0 k (enc_extobj_body reg m tv body)
       (if m =? 0 then ret (VExtObj m (Some tid') None)
@@ -105,7 +105,7 @@ Section ExtObj.
     intros m tv body tid' Hm H Etid Hrec. unfold enc_extobj_body. destruct (m =? 0) eqn:E0; [apply RTb_ret|].
     destruct body as [bv|].
     - destruct (extobj_body_ty reg m tv) as [bt|] eqn:Ebt; [|discriminate]. apply andb_true in H. destruct H as [Hw Hlen].
-      destruct (Hrec bt bv eq_refl eq_refl Hw) as [bb [Ebb [_ Dbb]]].
+      destruct (Hrec bt bv eq_refl eq_refl eq_refl Hw) as [bb [Ebb [_ Dbb]]].
       change (if m =? 2 then Some xml_body_ty else option_map TPtr (lookup_expnodeid reg tv)) with (extobj_body_ty reg m tv).
       rewrite Ebt. cbv zeta. rewrite Ebb in *. apply andb_true in Hlen. destruct Hlen as [Hpos Hnull].
       apply Z.ltb_lt in Hpos, Hnull.
@@ -131,7 +131,7 @@ Section ExtObj.
 
   Lemma RTb_extobj : forall m tv body,
     rwf reg (TCustom CExtObj) (VExtObj m (Some tv) body) = true ->
-    (forall bt bv, body = Some bv -> extobj_body_ty reg m tv = Some bt -> rwf reg bt bv = true ->
+    (forall bt bv, body = Some bv -> (m =? 0) = false -> extobj_body_ty reg m tv = Some bt -> rwf reg bt bv = true ->
        RTb 0 k (encode reg bt bv) (rec bt) (rnorm reg bt bv)) ->
     RTb 3 (S k) (encode reg (TCustom CExtObj) (VExtObj m (Some tv) body)) (dec_extobj reg rec)
         (rnorm reg (TCustom CExtObj) (VExtObj m (Some tv) body)).
